@@ -29,11 +29,11 @@ def extra_runs(rng, tier):
 
 def nontrivial(raw):
     # an external wait that had to keep waiting, a suspension, and a restart all occurred
-    return ' rt.suspend ' in raw and raw.count(' life.stop.exit ') >= 2 and ' task.unstage ' in raw
+    return ' rt.suspend ' in raw and raw.count(' life.stop.exit ') >= 2 and ' newq.pop ' in raw
 
 
 def stats(raw):
-    d = {k: raw.count(' ' + k + ' ') for k in ('gac.inc', 'gac.sample', 'task.stage', 'task.rebind', 'rt.suspend', 'pu.sleep',
+    d = {k: raw.count(' ' + k + ' ') for k in ('gac.inc', 'gac.sample', 'newq.push', 'task.rebind', 'rt.suspend', 'pu.sleep',
                                                'life.stop.exit', 'x.wait.exit', 'body.enter', 'rt.result')}
     # samples that saw a busy counter (wait had to go on) and samples taken from inside a task
     busy = task = 0
@@ -55,7 +55,7 @@ e2check.run(dict(
     runs=runs, extra_runs=extra_runs, nontrivial=nontrivial, stats=stats, par=3, timeout_s=900,
     rule='life-cycle histories `start cfg; (submit* | external_submit | wait | wait-from-a-task | suspend; submit*; resume)*; finalize; stop` repeated 1-5 times per process with PRNG-chosen thread counts (1-6) and scheduling policies (all 8), task trees with mixed priorities/stack sizes/yields, OS threads submitting concurrently with wait()/stop(), four shutdown styles (finalize then stop; stop entered before finalize with a helper submitting and then finalizing; finalize from a task; entry function returning a value), PRNG timing perturbation at the instrumented sites; non-trivial = the run contains a suspension, at least one restart and a staged task conversion; distinct = distinct argv',
     trusted_extra=['the life-cycle hooks are add-only lines (gac.inc/gac.dec/gac.sample read the counter under the log lock; rt.*/life.* are notes placed after the corresponding store or inside the corresponding mutex)',
-                   'driver normalisation: a `task.new` immediately followed on the same OS thread by `task.pool` for the same object (pre-allocation for the recycling heap) is dropped'],
+                   'driver normalisation: a `task.new` immediately followed on the same OS thread by `heap.pool` for the same object (pre-allocation for the recycling heap) is dropped'],
     assumptions=['histories respect the documented preconditions: stop/suspend/resume from non-pika threads, nothing is submitted from outside once finalize() was signalled and the work has drained, at most one task at a time blocks in wait()',
                  'activity sources other than tasks (CUDA/MPI polling) are not built in this tree and are not modelled',
                  'completion of every submitted task body (ledger) and the absence of body activity during suspension are additionally observed by monitors on each run; the theorems cover the counter/phase protocol'],
